@@ -390,7 +390,7 @@ def run(ck: Check) -> None:
         defs, exprs, metas = build_case(j, jb, r)
         shard_items.append((defs, exprs, metas))
 
-    out = cl.run_shards(ck, "c10", shard_items, HEADER, per_shard=cl.SHARD_MAX_ITEMS, timeout=300)
+    out = cl.run_shards(ck, "c10", shard_items, HEADER, per_shard=cl.SHARD_MAX_ITEMS, timeout=ck.n(300, 600))
 
     lap("Coq evaluation of the case files")
     # ---- interpretation ----
